@@ -14,7 +14,7 @@ FLOORS = {
     'quick': dict({'distinct_nontrivial': 6000, 'repr:bytes': 6000, 'repr:window': 8000, 'repr:complete-slice': 3000, 'feature:window-mid-line': 2500,
                    'feature:window-after-newline': 1500, 'feature:window-at-0': 1000, 'feature:neighbour-would-extend-token': 2500,
                    'feature:rejected': 4000, 'feature:accepted': 6000, 'feature:newline-before-token(bytes)': 2500,
-                   'dynamic-partial-slice-refused': 200, 'context-sensitive-class': 100},
+                   'dynamic-partial-slice-refused': 200, 'context-sensitive-class': 100, 'shaped-grammar-texts': 400, 'shaped-corpus': 9},
                   **{'judged:%s/%s' % pl: 1000 for pl in LEXERS}),
     'thorough-unused': dict({'distinct_nontrivial': 100000, 'repr:bytes': 80000, 'repr:window': 100000}, **{'judged:%s/%s' % pl: 15000 for pl in LEXERS}),
 }
@@ -205,12 +205,43 @@ def build_engines(ctx, g, gflags, only=None):
     return engines
 
 
+def shaped_batch(ctx, rng, G, texts):
+    """grammars with tree structure (?-rules, inlined rules, filtered tokens around sub-trees): the meta of every node - whose
+    computation looks at offsets, e.g. 'container' offsets that are 0 in a substring and not in a window - must agree too"""
+    from ..gram import print_grammar
+    g = print_grammar(G)
+    engines = build_engines(ctx, g, 0)
+    for w in texts:
+        if w.strip(' \n') and w.isascii():
+            run_text(ctx, g, 0, engines, w, rng)
+            ctx.count('shaped-grammar-texts')
+
+
 def run_batch(ctx):
     rng = ctx.rng
+    if ctx.batch == 0:
+        for G, texts in c06._meta_corpus():
+            shaped_batch(ctx, rng, G, texts)
+            ctx.count('shaped-corpus')
     for i in range(PER_BATCH[ctx.tier]):
         if not ctx.time_left():
             ctx.count('stopped-on-time-budget')
             break
+        if i % 4 == 1:
+            from ..gram import RefGrammar
+            G = gen.ebnf(rng, p_rec=0.1, p_ignore=1.0, allow_templates=True)
+            for t in G['terms']:
+                if t['name'] == 'WS':
+                    t['pat'], t['ex'] = ['x', '[ \\n]+', ''], [' ', '\n', ' \n']
+            if G['ignore']:
+                rg = RefGrammar(G)
+                ex = gen.term_examples(rg, G)
+                ws = set()
+                for _ in range(8):
+                    s_ = gen.sample_sentence(rg, rng, ex, depth=5)
+                    if s_ is not None:
+                        ws.add(rng.choice(['', ' ', '\n']).join(x for _, x in s_)[:40])
+                shaped_batch(ctx, rng, G, sorted(ws))
         g, gflags, kind, textgen = c06.gen_grammar(rng)
         engines = build_engines(ctx, g, gflags)
         texts = []
